@@ -16,6 +16,7 @@ import datetime as dt_
 import operator
 import zoneinfo
 
+from .. import worker
 from .. import core, obs, seeds
 from ..ref import calref, tzref
 
@@ -260,11 +261,13 @@ def run_shard(shard):
     if k == "states":
         for z, inst in shard["left"]:
             acc.c["states"] += 1
-            check_state(acc, pendulum, z, inst)
+            with worker.guarded(acc, "accessor", {"kind": "state", "z": z, "inst": inst}):
+                check_state(acc, pendulum, z, inst)
             for zy, iy in shard["all"]:
                 if shard["within_zone_only"] and zy != z:
                     continue
-                check_pair(acc, pendulum, z, inst, zy, iy)
+                with worker.guarded(acc, "compare", {"kind": "pair", "zx": z, "ix": inst, "zy": zy, "iy": iy}):
+                    check_pair(acc, pendulum, z, inst, zy, iy)
                 acc.c["nontrivial"] += 1
         acc.sample({"state": [str(shard["left"][0][0]), obs.iso(shard["left"][0][1])], "accessors": len(ACCESSORS),
                     "pairs_against": len(shard["all"])})
